@@ -826,6 +826,74 @@ func c17child(e *env) {
 			addErr(fmt.Sprintf("after a race of adds on %q goroutine %d's add succeeded but the stored value is %q", key, winners[0], stored))
 		}
 	}
+	// an acknowledged write over an EXPIRED entry must survive the readers that are looking at that
+	// entry at the same moment (a reader that tidies up expired entries it saw, after giving up
+	// the read lock, would remove the fresh value: seed L15). Per round one writer sets the key
+	// while the other goroutines run long multi-key gets that start with it; nobody else writes
+	// the key, so the read after the round must return the writer's value.
+	lateRounds := 150
+	if iters < 4000 {
+		lateRounds = 60
+	}
+	if g >= 2 && len(out.Errors) == 0 {
+		fill := make([][]byte, 0, 200)
+		for j := 0; j < 200; j++ {
+			fill = append(fill, []byte(fmt.Sprintf("latefill%d", j)))
+		}
+		for round := 0; round < lateRounds; round++ {
+			h.Set(common.SetRequest{Key: []byte(fmt.Sprintf("late%d", round)), Data: []byte("old"), Exptime: 1})
+		}
+		time.Sleep(2100 * time.Millisecond)
+		for round := 0; round < lateRounds && len(out.Errors) == 0; round++ {
+			key := []byte(fmt.Sprintf("late%d", round))
+			fresh := fmt.Sprintf("fresh-%d", round)
+			keys := append([][]byte{key}, fill...)
+			opq := make([]uint32, len(keys))
+			qt := make([]bool, len(keys))
+			var rw sync.WaitGroup
+			gate := make(chan struct{})
+			acked := false
+			for i := 0; i < g; i++ {
+				rw.Add(1)
+				go func(i int) {
+					defer rw.Done()
+					h := c17NewConn()
+					<-gate
+					if i == 0 {
+						time.Sleep(time.Duration(round%7) * 3 * time.Microsecond)
+						acked = h.Set(common.SetRequest{Key: key, Data: []byte(fresh), Flags: 7}) == nil
+						return
+					}
+					for n := 0; n < 3; n++ {
+						dc, ec := h.Get(common.GetRequest{Keys: keys, Opaques: opq, Quiet: qt})
+						for x := range dc {
+							if !x.Miss && string(x.Data) != fresh {
+								addErr(fmt.Sprintf("Get of the expired key %q returned %q", x.Key, x.Data))
+							}
+						}
+						for range ec {
+						}
+					}
+				}(i)
+			}
+			close(gate)
+			rw.Wait()
+			var stored []byte
+			hit := false
+			dc, ec := h.Get(common.GetRequest{Keys: [][]byte{key}, Opaques: []uint32{0}, Quiet: []bool{false}})
+			for x := range dc {
+				if !x.Miss {
+					stored, hit = x.Data, true
+				}
+			}
+			for range ec {
+			}
+			out.Counts["conc_write_over_expired_round"]++
+			if acked && (!hit || string(stored) != fresh) {
+				addErr(fmt.Sprintf("a set of %q over its expired entry was acknowledged while %d goroutines were reading that entry; nobody else wrote the key, yet the read afterwards returns hit=%v %q instead of %q: the acknowledged write is lost", key, g-1, hit, stored, fresh))
+			}
+		}
+	}
 	// quiescence: a final read of each goroutine's own keys with the dump restricted to them
 	cl := newC17Client(h)
 	for i := range out.Traces {
